@@ -25,7 +25,8 @@ from mc import cli, pv
 from mc.checks import c09
 from mc.engine import VERIF, Check, h64
 
-SPECIMENS = Path("/repo/tests/data")
+REPO = os.environ.get("VERIF_REPO", "/repo")
+SPECIMENS = Path(REPO) / "tests" / "data"
 SEEDS_QUICK = ["0", "1", "2", "3", "random"]
 SEEDS_THOROUGH = ["0", "1", "2", "3", "4", "5", "6", "7", "11", "random"]
 
@@ -52,7 +53,7 @@ GEN_CASES = [(0, 0), (0, 1), (1, 2), (1, 3)]  # (input index, map index)
 def env_for(seed):
     e = dict(os.environ)
     e["PYTHONHASHSEED"] = seed
-    e["PYTHONPATH"] = f"/repo/src:{VERIF}"
+    e["PYTHONPATH"] = f"{REPO}/src:{VERIF}"
     e["PYTHONDONTWRITEBYTECODE"] = "1"
     return e
 
